@@ -174,4 +174,98 @@ theorem removeAll_spec {fs : Entry} {q : Path} {n : Name} (h : Clear fs q) :
       · cases q <;> simp_all [removeAll]
       · simp [Clear, lookupE_setE_self, hcl]
 
+/-- a clear path has clear prefixes -/
+theorem clear_prefix {fs : Entry} {q : Path} {n : Name} (h : Clear fs (q ++ [n])) : Clear fs q := by
+  induction q generalizing fs with
+  | nil =>
+    obtain ⟨es, rfl⟩ := clear_is_dir h
+    simp [Clear]
+  | cons m q ih =>
+    obtain ⟨es, rfl⟩ := clear_is_dir h
+    simp only [List.cons_append, Clear] at h ⊢
+    cases hl : lookupE es m with
+    | none => simp
+    | some c => simp only [hl] at h ⊢; exact ih h
+
+/-- after `RemoveAll (q ++ [n])` nothing is at that path -/
+theorem get_removeAll_self {fs fs1 : Entry} {q : Path} {n : Name} (h : removeAll fs (q ++ [n]) = .ok fs1) :
+    fs1.get (q ++ [n]) = none := by
+  induction q generalizing fs fs1 with
+  | nil =>
+    cases fs with
+    | dir es =>
+      simp [removeAll] at h; subst h
+      simp [Entry.get_dir_cons, lookupE_eraseE_self]
+    | file b x => simp [removeAll] at h
+    | link t => simp [removeAll] at h
+  | cons m q ih =>
+    cases fs with
+    | dir es =>
+      cases q with
+      | nil =>
+        simp only [List.cons_append, List.nil_append, removeAll] at h
+        cases hl : lookupE es m with
+        | none =>
+          simp [hl] at h; subst h
+          simp [Entry.get_dir_cons, hl]
+        | some c =>
+          simp only [hl] at h
+          cases hr : removeAll c [n] with
+          | error e => simp [hr] at h
+          | ok c' =>
+            simp [hr] at h; subst h
+            have := ih (fs := c) (fs1 := c') (by simpa using hr)
+            simpa [Entry.get_dir_cons, lookupE_setE_self] using this
+      | cons y ys =>
+        simp only [List.cons_append, removeAll] at h
+        cases hl : lookupE es m with
+        | none =>
+          simp [hl] at h; subst h
+          simp [Entry.get_dir_cons, hl]
+        | some c =>
+          simp only [hl] at h
+          cases hr : removeAll c (y :: (ys ++ [n])) with
+          | error e => simp [hr] at h
+          | ok c' =>
+            simp [hr] at h; subst h
+            have := ih (fs := c) (fs1 := c') (by simpa using hr)
+            simpa [Entry.get_dir_cons, lookupE_setE_self] using this
+    | file b x => simp [removeAll] at h
+    | link t => simp [removeAll] at h
+
+/-- the load path of the repaired file restore succeeds from every prior state with clear ancestors, whatever sits at the
+    destination, and leaves the fetched content with the stored executable bit there -/
+theorem restoreFileLoad_fixed_spec {fs : Entry} {q : Path} {n : Name} (d : Digest) (x : Bool) (cas : Cas) (c : Bytes)
+    (hpar : Clear fs q) (hcas : cas.get d = some c) :
+    ∃ fs', restoreFileLoad .fixed d x cas fs (q ++ [n]) = .ok fs' ∧ fs'.get (q ++ [n]) = some (.file c x) := by
+  have hp : parentOf (q ++ [n]) = q := by simp [parentOf]
+  have create : ∀ fsx : Entry, Clear fsx q → (∀ e, fsx.get (q ++ [n]) = some e → ∃ b' x', e = .file b' x') →
+      ∃ fs', (match mkdirAll fsx q with
+        | .error e => Except.error e
+        | .ok fs1 => createFile fs1 (q ++ [n]) c (some x)) = .ok fs' ∧ fs'.get (q ++ [n]) = some (.file c x) := by
+    intro fsx hcl hreg
+    obtain ⟨fs1, hm, hdir, hbelow⟩ := mkdirAll_spec hcl
+    obtain ⟨fs', hs, hg⟩ := setAt_spec (n := n) (.file c x) hdir
+    refine ⟨fs', ?_, hg⟩
+    simp only [hm, createFile, hbelow n]
+    cases hget : fsx.get (q ++ [n]) with
+    | none => simpa using hs
+    | some e =>
+      obtain ⟨b', x', rfl⟩ := hreg e hget
+      simpa using hs
+  simp only [restoreFileLoad, hcas, hp]
+  cases hget : fs.get (q ++ [n]) with
+  | none => exact create fs hpar (fun e he => by rw [hget] at he; cases he)
+  | some e =>
+    cases e with
+    | file b' x' => exact create fs hpar (fun e he => by rw [hget] at he; cases he; exact ⟨b', x', rfl⟩)
+    | dir es =>
+      obtain ⟨fs0', hr, hcl⟩ := removeAll_spec (n := n) hpar
+      simp only [hr]
+      exact create fs0' (clear_prefix hcl) (fun e he => by rw [get_removeAll_self hr] at he; cases he)
+    | link t =>
+      obtain ⟨fs0', hr, hcl⟩ := removeAll_spec (n := n) hpar
+      simp only [hr]
+      exact create fs0' (clear_prefix hcl) (fun e he => by rw [get_removeAll_self hr] at he; cases he)
+
 end Grog
